@@ -168,6 +168,9 @@ var cmpNames = []string{"gt", "lt", "ge", "le", ">", "<", ">=", "<=", "ne", "!="
 var arithSafe = []string{"add", "sub", "mul", "+", "-", "*"}
 var arithDiv = []string{"div", "mod", "/", "%"}
 
+// constants every harness configuration defines (Config.ConstantMap)
+var stdConsts = map[string]interface{}{"KT": true, "KF": false, "K7": int64(7)}
+
 var boolVars = []string{"b0", "b1", "b2", "b3"}
 var intVars = []string{"i0", "i1", "i2", "i3"}
 var strVars = []string{"s0", "s1"}
@@ -234,6 +237,12 @@ func (g *Gen) Bool(d int) *GT {
 	if d <= 0 || r.Intn(5) == 0 {
 		switch x := r.Intn(10); {
 		case x < 3:
+			if r.Intn(3) == 0 { // a constant of the configuration (Config.ConstantMap), e.g. a feature switch
+				if r.Bool() {
+					return &GT{Kind: "const", Val: true, Name: "KT"}
+				}
+				return &GT{Kind: "const", Val: false, Name: "KF"}
+			}
 			return gconst(r.Bool())
 		case x == 3 && g.c.FailVars:
 			return gvar(pick(r, failVars))
@@ -343,6 +352,9 @@ func (g *Gen) Int(d int) *GT {
 	if d <= 0 || r.Intn(4) == 0 {
 		switch x := r.Intn(10); {
 		case x < 5:
+			if r.Intn(6) == 0 {
+				return &GT{Kind: "const", Val: int64(7), Name: "K7"}
+			}
 			return gconst(g.smallInt())
 		case x == 5 && g.c.FailVars:
 			return gvar(pick(r, failVars))
